@@ -23,6 +23,11 @@ class ExprArraySumModel(ExprDynamicModel):
     def build(self, btor, ctx_width=-1):
         return self.arr.build_sum_expr(btor, ctx_width)
     
+    def reset(self):
+        super().reset()
+        # The array caches the solver node of this expression
+        self.arr.sum_expr_btor = None
+        
     def accept(self, v):
         v.visit_expr_array_sum(self)
     
